@@ -23,21 +23,24 @@
 (***************************************************************************)
 EXTENDS Flurry, Json, IOUtils
 
-Rec == ndJsonDeserialize(IOEnv.TRACE)[1]
+Recs == ndJsonDeserialize(IOEnv.TRACE)
+Rec == Recs[1]      \* the constants (program, hash function, initial table) are those of the first record; a file may hold
+                    \* several recorded executions of the same job (bounded-exhaustive schedule exploration): variable tr
 TrThreads == 1..Rec.nthreads
 TrProg == [t \in TrThreads |-> Rec.prog[t]]
 TrHash == Rec.hashof
 TrInit == Rec.initkeys
 TrN0 == Rec.n0
-Ev == Rec.ev
 Diag == "DIAG" \in DOMAIN IOEnv /\ IOEnv.DIAG = "1"
 IsSetRun == "TRACE" \in DOMAIN IOEnv /\ Rec.set = 1
 
-VARIABLES l,
+VARIABLES tr,       \* which record of the file is being replayed
+          l,
           slotOf,   \* bin-array slot (address renamed 1,2,..) -> <<table, index>> it was seen to be (<<0,0>> = not yet)
           tntOf,    \* address of a table's own next_table field -> that table (0 = not yet)
           taken     \* labels (pc values) of the specification actions replayed so far (reported for coverage)
-tvars == <<vars, l, slotOf, tntOf, taken>>
+tvars == <<vars, tr, l, slotOf, tntOf, taken>>
+Ev == Recs[tr].ev
 
 \* the bin (table, index) an action of thread t reads or writes, if any
 BinOf(t) ==
@@ -150,10 +153,12 @@ TntOk(e, t) ==
        /\ \A s2 \in DOMAIN tntOf : s2 # e.s => tntOf[s2] # want
        /\ tntOf' = [tntOf EXCEPT ![e.s] = want]
 
-TInit == Init /\ l = 1 /\ slotOf = [i \in 1..Rec.nslots |-> <<0, 0>>] /\ tntOf = [i \in 1..Rec.ntnts |-> 0] /\ taken = {}
+TInit ==
+  /\ Init /\ tr \in 1..Len(Recs) /\ l = 1 /\ taken = {}
+  /\ slotOf = [i \in 1..Recs[tr].nslots |-> <<0, 0>>] /\ tntOf = [i \in 1..Recs[tr].ntnts |-> 0]
 E == Ev[l]
 TNext ==
-  /\ l <= Len(Ev)
+  /\ l <= Len(Ev) /\ UNCHANGED tr
   /\ LET t == E.t IN
      \/ /\ Class(t) = "local" /\ Step(t) /\ UNCHANGED <<l, slotOf, tntOf>> /\ taken' = taken \cup {pc[t]}
      \/ /\ E.c = "ret" /\ pc[t] = "idle" /\ RetOk(E, t) /\ l' = l + 1 /\ UNCHANGED <<vars, slotOf, tntOf, taken>>
@@ -171,7 +176,7 @@ TSpec == TInit /\ [][TNext]_tvars
 
 Done == l > Len(Ev)
 Report ==
-  /\ Done => PrintT(<<"ACCEPT", Rec.id>>) /\ PrintT(<<"TAKEN", taken>>)
+  /\ Done => PrintT(<<"ACCEPT", Recs[tr].id>>) /\ PrintT(<<"TAKEN", taken>>)
   /\ Diag => PrintT(<<"AT", l, IF l <= Len(Ev) THEN <<E.t, E.c, pc[E.t], Class(E.t)>> ELSE <<>>>>)
 \* the replayed states satisfy the specification's invariants (those that do not need a finished run)
 TraceInv == ResizeSafe /\ (Done => (QuiescentOK /\ GhostOK)) /\ IterWeak /\ RetainOK
